@@ -39,6 +39,9 @@ def build(case):
     for t in tables:
         n += 1
         sub = f'{rng.randrange(1000):03d}' if rng.random() < 0.8 else f'{n:03d}'
+        if case.get('alphasub'):
+            # sub-ids that are not three digits: letters, blanks, a sign — a sub-id is three characters of the index entry
+            sub = ['A36', ' 06', '3 6', '-06', 'ABC', '0A0', 'x_y', '  7'][(n + case['seed']) % 8]
         rec = list(' ' * 300)
         if rng.random() < 0.5:
             # free text in the columns the reader does not look at (a description), with characters whose case mapping
@@ -259,6 +262,9 @@ def explore(run, tier):
         if i % 4 == 1:
             for expanded in (0, 1):
                 cases.append(dict(base, expanded=expanded, selfref=True, nrows=max(base['nrows'], 6)))
+        if i % 4 == 2:
+            for expanded in (0, 1):
+                cases.append(dict(base, expanded=expanded, alphasub=True, nrows=max(base['nrows'], 6)))
         if i % 6 == 0:
             lay = gen_layout(rng)
             t = rng.choice(tables)
